@@ -51,6 +51,31 @@ class GotranCCodePrinter(C99CodePrinter):
     def _print_Float(self, flt):
         return self._print(str(float(flt)))
 
+    def _print_Mul(self, expr):
+        # A quotient of integer-valued sub-expressions (``1/4``, ``(3/2)*x``, ``pow(x, 1/2)``,
+        # ``2/(2 + 2)``) reaches the printer as Mul(Integer, Pow(Integer, -n)) and would be
+        # printed as C integer division: make the numerator a double whenever a
+        # denominator is integer valued.
+        factors = []
+
+        def flatten(e):
+            for arg in e.args:
+                if arg.is_Mul:
+                    flatten(arg)
+                else:
+                    factors.append(arg)
+
+        flatten(expr)
+        if any(f.is_Pow and f.exp.is_negative and f.base.is_integer for f in factors):
+            numerator = [f for f in factors if not (f.is_Pow and f.exp.is_negative)]
+            converted = [sympy.Float(f) if f.is_Integer else f for f in factors]
+            if not any(f.is_Integer for f in numerator) and (
+                not numerator or any(f.is_integer for f in numerator)
+            ):
+                converted = [sympy.Float(1.0)] + converted
+            factors = converted
+        return super()._print_Mul(sympy.Mul(*factors, evaluate=False))
+
     def _print_Piecewise(self, expr):
         if isinstance(expr.args[0][0], Assignment):
             result = []
